@@ -46,7 +46,7 @@ def hull_cases(draw):
     aspect = draw(st.sampled_from([1.0, 1.0, 0.1, 10.0, 3.0]))
     off = draw(st.sampled_from([0.0, 1.0, -10.0, 100.0, -100.0]))
     return dict(lattice=lattice, data=data, query=query, scale=scale, aspect=aspect, offset=[off * scale, -off * scale * aspect],
-                form=draw(st.sampled_from(["array", "array2d", "grid"])), proj=draw(st.sampled_from([None, None, [2.0, 0.5], [-1.0, 3.0], "polar"])),
+                form=draw(st.sampled_from(["array", "array2d", "grid"])), proj=draw(st.sampled_from([None, None, [2.0, 0.5], [-1.0, 3.0], "polar", [0.8, -0.6, 0.6, 0.8], [1.0, 0.7, 0.0, 1.0], [0.5, 2.0, -1.5, 0.25]])),
                 dshape=draw(st.sampled_from(blocks.shape_options(n))), orders=draw(build.orders_strategy()), extra=draw(st.sampled_from([0, 0, 1, 2])), qextra=draw(st.sampled_from([0, 0, 1])))
 
 
@@ -80,6 +80,12 @@ def check_hull(case, ctx):
             ang = 2.5 * (np.asarray(e) - e0) / se
             rad = 1.0 + (np.asarray(n) - n0) / sn
             return rad * np.cos(ang), rad * np.sin(ang)
+    elif case["proj"] is not None and len(case["proj"]) == 4:
+        # invertible linear map that mixes easting and northing (rotation, shear): membership in the convex hull is invariant under it, the oracle
+        # keeps working in the unprojected plane; coordinates are taken relative to the cloud's corner so that large offsets do not cancel
+        pa, pb, pc, pd = case["proj"]
+        e0, n0 = float(d[:, 0].min()), float(d[:, 1].min())
+        proj = lambda e, n: (pa * (np.asarray(e) - e0) + pb * (np.asarray(n) - n0), pc * (np.asarray(e) - e0) + pd * (np.asarray(n) - n0))  # noqa: E731
     elif case["proj"] is not None:
         ax, ay = case["proj"]
         proj = lambda e, n: (ax * np.asarray(e), ay * np.asarray(n))  # noqa: E731
